@@ -552,6 +552,10 @@ func (b *rebuilder) value(t types.Type, v *Term, depth int) string {
 		if nm, ok := b.objs[key]; ok {
 			return nm
 		}
+		if foreignOpaque(u.Elem(), st, b.pkg) {
+			// e.g. *bufio.Reader: its state (modelled by ghost fields) cannot be rebuilt from outside its package
+			b.fail("an object of type %s (private state of another package) cannot be rebuilt", typeKey(u.Elem()))
+		}
 		nm := b.fresh("o")
 		b.objs[key] = nm
 		b.decls = append(b.decls, fmt.Sprintf("%s := new(%s)", nm, b.typeStr(u.Elem())))
@@ -588,6 +592,11 @@ func (b *rebuilder) fillStruct(lhs string, named types.Type, st *types.Struct, r
 	for i := 0; i < st.NumFields(); i++ {
 		f := st.Field(i)
 		if inner, ok := f.Type().Underlying().(*types.Struct); ok {
+			if foreignOpaque(f.Type(), inner, b.pkg) {
+				// e.g. a bytes.Buffer or sync.Mutex held by value: left at its zero value, which may not be the modelled state
+				b.inexact = append(b.inexact, "a field of type "+typeKey(f.Type())+" (private state of another package) was left at its zero value")
+				continue
+			}
 			b.fillStruct(lhs+"."+f.Name(), f.Type(), inner, ref, depth)
 			continue
 		}
@@ -729,6 +738,20 @@ func (b *rebuilder) finishMaps() {
 			}
 		}
 	}
+}
+
+// foreignOpaque: a struct type of another package with unexported fields
+func foreignOpaque(t types.Type, st *types.Struct, pkg *types.Package) bool {
+	n, ok := t.(*types.Named)
+	if !ok || n.Obj().Pkg() == nil || n.Obj().Pkg() == pkg {
+		return false
+	}
+	for i := 0; i < st.NumFields(); i++ {
+		if !st.Field(i).Exported() {
+			return true
+		}
+	}
+	return false
 }
 
 // ---- the replay of one obligation ----
